@@ -168,6 +168,7 @@ func runHandlerProg(ss grpc.ServerStream, tag string, ops []Op, rec *SideRec, ga
 		rec.add(Ev{Op: "ret", Err: ret})
 	}()
 	sendSeq := 0
+	var bg chan error
 	for _, op := range ops {
 		n := op.N
 		if n == 0 {
@@ -176,8 +177,11 @@ func runHandlerProg(ss grpc.ServerStream, tag string, ops []Op, rec *SideRec, ga
 		switch op.Op {
 		case "recv":
 			for i := 0; i < n; i++ {
-				var m svc.BV
+				m := svc.BV{Value: []byte("stale content of a reused message")} // a handler may reuse its receive object
 				err := ss.RecvMsg(&m)
+				if err != nil {
+					m.Value = nil
+				}
 				rec.add(Ev{Op: "recv", Data: m.Value, Err: err})
 				if err != nil {
 					rec.mu.Lock()
@@ -194,8 +198,11 @@ func runHandlerProg(ss grpc.ServerStream, tag string, ops []Op, rec *SideRec, ga
 			}
 		case "recvAll":
 			for {
-				var m svc.BV
+				m := svc.BV{Value: []byte("stale content of a reused message")} // a handler may reuse its receive object
 				err := ss.RecvMsg(&m)
+				if err != nil {
+					m.Value = nil
+				}
 				rec.add(Ev{Op: "recv", Data: m.Value, Err: err})
 				if err != nil {
 					rec.mu.Lock()
@@ -230,8 +237,11 @@ func runHandlerProg(ss grpc.ServerStream, tag string, ops []Op, rec *SideRec, ga
 			}
 		case "echo": // recv until EOF, echoing each message
 			for {
-				var m svc.BV
+				m := svc.BV{Value: []byte("stale content of a reused message")} // a handler may reuse its receive object
 				err := ss.RecvMsg(&m)
+				if err != nil {
+					m.Value = nil
+				}
 				rec.add(Ev{Op: "recv", Data: m.Value, Err: err})
 				if err != nil {
 					rec.mu.Lock()
@@ -269,6 +279,39 @@ func runHandlerProg(ss grpc.ServerStream, tag string, ops []Op, rec *SideRec, ga
 			rec.add(Ev{Op: "ctxDone", Err: ss.Context().Err()})
 		case "gate":
 			gates.Wait(op.Gate)
+		case "spawnRecvAll":
+			// a full-duplex handler: a second goroutine receives until the end of the caller's
+			// messages while this one goes on (gRPC allows one sender and one receiver at a time)
+			bg = make(chan error, 1)
+			go func() {
+				for {
+					m := svc.BV{Value: []byte("stale content of a reused message")}
+					err := ss.RecvMsg(&m)
+					if err != nil {
+						m.Value = nil
+					}
+					rec.add(Ev{Op: "recv", Data: m.Value, Err: err})
+					if err != nil {
+						rec.mu.Lock()
+						rec.RecvEnd = err
+						rec.mu.Unlock()
+						if err == io.EOF {
+							err = nil
+						}
+						bg <- err
+						return
+					}
+					rec.mu.Lock()
+					rec.Recvd = append(rec.Recvd, append([]byte{}, m.Value...))
+					rec.mu.Unlock()
+				}
+			}()
+		case "join":
+			if bg != nil {
+				if err := <-bg; err != nil {
+					return err
+				}
+			}
 		case "ret":
 			return op.Err
 		}
